@@ -23,7 +23,7 @@ def build_aranges(ch, le, unit_offs=()):
     nsets = ch.pick('aranges.sets', [2, 1, 3, 0])
     amode = ch.pick('aranges.address_size', ['8', '4', 'mixed', 'mixed_4_first'])
     ntup = ch.pick('aranges.tuples', [2, 0, 1, 5])
-    shape = ch.pick('aranges.ranges', ['sorted', 'unsorted', 'adjacent', 'length1'])
+    shape = ch.pick('aranges.ranges', ['sorted', 'unsorted', 'adjacent', 'length1', 'address_zero', 'length_zero'])
     first_tuples = ch.pick('aranges.first_set_tuples', ['same', 0, 1])     # makes the second set start off its tuple alignment
     second_tuples = ch.pick('aranges.second_set_tuples', ['same', 0])         # an empty set in the middle must not end the table
     o = '<' if le else '>'
@@ -45,8 +45,14 @@ def build_aranges(ch, le, unit_offs=()):
                 t = (base + 0x100 * (n - 1 - k), 0x40)
             elif shape == 'adjacent':
                 t = (base + 0x40 * k, 0x40)
-            else:
+            elif shape == 'length1':
                 t = (base + 0x10 * k, 1)
+            elif shape == 'address_zero':
+                # a range that starts at address 0 (discarded code resolved to 0, .text of an object at 0): only (0, 0) terminates a set
+                t = (0, 0x40) if (k == 0 and si == 0) else (base + 0x100 * k, 0x40)
+            else:
+                # an empty contribution in the middle of the set: (address, 0) is an entry, not the terminator
+                t = (base + 0x100 * k, 0 if k == 1 else 0x40)
             tuples.append(t)
         base += 0x1000
         hdr_rest = struct.pack(o + 'HIBB', 2, info_off, asz, 0)
